@@ -163,7 +163,8 @@ def run_lines(binary, lines, timeout=600, per_line_resume=False, env=None):
             p = subprocess.run([binary], input=data, stdout=subprocess.PIPE, stderr=subprocess.DEVNULL,
                                timeout=timeout, env=env or ENV)
             out = p.stdout.decode("utf-8", errors="replace").split("\n")
-            if out and out[-1] == "":
+            # (an unfinished last line - a process that died while writing - is no answer either)
+            if out:
                 out.pop()
             died = "abort"
             if p.returncode == 3 and out and out[-1] == "timeout" and len(out) < len(chunk):
@@ -175,10 +176,12 @@ def run_lines(binary, lines, timeout=600, per_line_resume=False, env=None):
                     break
                 continue
         except subprocess.TimeoutExpired as e:
-            out = (e.stdout or b"").decode("utf-8", errors="replace").split("\n")
-            if out and out[-1] == "":
+            raw = (e.stdout or b"").decode("utf-8", errors="replace")
+            out = raw.split("\n")
+            # what stands behind the last line feed is the beginning of the answer to the request that was running when the time
+            # ran out: it is no answer (that request gets `timeout` below)
+            if out:
                 out.pop()
-            # the last line may be partial
             died = "timeout"
         if len(out) >= len(chunk):
             results.extend(out[:len(chunk)])
